@@ -101,6 +101,10 @@ def gen_marker(rng, n, tier):
         if c['nameset'] == 'repeat' and len(c['cols']) >= 2:
             c['cols'][-1] = list(c['cols'][0])      # the last entry tests the first feature again
             c['scalar'] = False
+        elif rng.random() < 0.12:                    # the tested features are the built-in ones (coordinates): "mark everything above altitude Z", "east of X"
+            c['nameset'] = 'builtin'; c['before'] = None
+            c['cols'] = [[0.0 if v is None else v for v in col] for col in c['cols']]
+            c['perm'] = rng.sample(['x', 'y', 'z'], 3)
         elif rng.random() < 0.15:                    # thresholding in place: the marker is written under the name of one of the tested features (each observation is tested on its values before its marker is written)
             c['inplace'] = rng.randrange(nf); c['before'] = None
     return out
@@ -119,7 +123,14 @@ def run_marker(case):
         names = ['speed_km/h', 'v (raw)', 'acc^2'][:len(names)]
     elif case.get('nameset') == 'repeat':             # the same feature tested twice, against two thresholds (a band): entries are matched with thresholds by position
         names = ['f0', 'f1', 'f0'][:len(names)] if len(names) != 2 else ['f0', 'f0']
+    if case.get('nameset') == 'builtin':
+        names = case['perm'][:len(names)]
+        for nm, c in zip(names, case['cols']):
+            for i, v in enumerate(c):
+                getattr(tr.getObs(i).position, 'set' + nm.upper())(v)
     for nm, c in zip(names, case['cols']):
+        if case.get('nameset') == 'builtin':
+            continue
         if not tr.hasAnalyticalFeature(nm):
             tr.createAnalyticalFeature(nm, [nan if v is None else v for v in c])
     OUT = 'out' if case.get('inplace') is None else names[case['inplace']]
